@@ -557,8 +557,13 @@ def show_pattern(p):
         if o == "var": return "?" + e["name"]
         if o == "const": return show_term(e["term"])
         if o == "bound": return "BOUND(?%s)" % e["name"]
-        if o in ("isiri", "not"): return "%s(%s)" % (o, ex(e["a"]))
-        return "(%s %s %s)" % (ex(e["a"]), {"or": "||", "and": "&&", "eq": "=", "lt": "<"}.get(o, o), ex(e["b"]))
+        if o in ("coalesce", "concat"): return "%s(%s)" % (o.upper(), ", ".join(ex(x) for x in e["args"]))
+        if o == "if": return "IF(%s, %s, %s)" % (ex(e["c"]), ex(e["a"]), ex(e["b"]))
+        if o == "substr": return "SUBSTR(%s)" % ", ".join(ex(e[k]) for k in ("a", "b", "c") if k in e)
+        if "b" not in e: return "%s(%s)" % (o, ex(e["a"]))
+        ops = {"or": "||", "and": "&&", "eq": "=", "lt": "<", "ne": "!=", "gt": ">", "le": "<=", "ge": ">=", "add": "+", "sub": "-", "mul": "*"}
+        if o in ops: return "(%s %s %s)" % (ex(e["a"]), ops[o], ex(e["b"]))
+        return "%s(%s, %s)" % (o, ex(e["a"]), ex(e["b"]))
     if o == "bgp": return "{ " + " . ".join(" ".join(pos(x) for x in tp) for tp in p["tps"]) + " }"
     if o == "union": return "{ %s UNION %s }" % (show_pattern(p["l"]), show_pattern(p["r"]))
     if o == "graphc": return "GRAPH %s %s" % (show_term(p["g"]), show_pattern(p["inner"]))
@@ -584,7 +589,7 @@ def c13(ctx):
     mc = Bg(lambda: model_check(ctx, "MC_Sparql", workers=2, timeout=600))
     tr = os.path.join(ctx.traces, "sparql.ndjson")
     n = 6000 if ctx.quick() else 120000
-    sv(binary, ["sparql", "--mode", "c13", "--n", n, "--seed", ctx.seed, "--out", tr], ctx=ctx)
+    sv(binary, ["sparql", "--mode", "c13", "--n", n, "--seed", ctx.seed, "--expr-stride", 4 if ctx.quick() else 1, "--out", tr], ctx=ctx)
     trace = read_trace(tr)
     mism = trace_check(ctx, "Trace_Sparql", tr, timeout=6000)
     bad = set()
